@@ -49,9 +49,16 @@ func oodCase(g *gcx.Gen, out *gal.Out) {
 		inner := gcx.M(names[g.Sel[enum]], sc(), "default", sc())
 		planted = gcx.M(names[g.Sel[enum]], inner, "default", inner)
 	case 3: // two spellings of one value
-		planted = gcx.M(names[g.Sel[enum]], gcx.Str("same"), strings.ToLower(names[g.Sel[enum]]), gcx.Str("same"))
+		other := strings.ToLower(names[g.Sel[enum]])
+		if other == names[g.Sel[enum]] {
+			other = strings.ToUpper(other)
+		}
+		planted = gcx.M(names[g.Sel[enum]], gcx.Str("same"), other, gcx.Str("same"))
 	default: // keys of two dimensions in one map
 		other := gcx.Enums[enum%3].Names
+		if other[0] == names[0] {
+			other = gcx.Enums[(enum+1)%3].Names
+		}
 		planted = gcx.M(names[0], sc(), other[0], sc())
 	}
 	doc = gcx.Map(append(doc.M, gcx.Entry{K: "planted", V: planted})...)
@@ -111,6 +118,37 @@ func corpus(out *gal.Out) {
 		"flags", x("b:true", m("D1a", m("D2a", s("hit"))), "b:false", gcx.Null(), "s:D1a", s("kept"), "s:default", s("kept too")),
 		"r", x("f:1.5", x("n:", m("D1b", s("no"), "D1a", s("deep")))))})
 	run(gcx.Input{Dims: d12, Doc: m("k", x("i:0", m("D1b", s("stuck"))))}) // a stuck switch below such a map: loading fails
+	// two dimensions that share value names (enum 4 "tier": prod stage dev only4; enum 5 "zone": dev prod
+	// stage only5), registered in both orders and under names whose alphabetical order is the
+	// opposite of the registration order: a switch keyed by shared names only belongs to the FIRST
+	// registered of the two
+	shared := m("k", m("prod", s("p"), "dev", s("d"), "default", s("dflt")),
+		"own4", m("only4", s("o4"), "prod", s("p4")), "own5", m("only5", s("o5"), "default", s("d5")),
+		"l", gcx.List(m("stage", m("only5", s("deep"), "default", s("deep default")), "default", s("no"))))
+	for _, regs := range [][]gcx.DimReg{
+		{{Enum: 4, Name: "tier", Default: 0}, {Enum: 5, Name: "zone", Default: 0}},
+		{{Enum: 5, Name: "zone", Default: 0}, {Enum: 4, Name: "tier", Default: 0}},
+		{{Enum: 4, Name: "zz_tier", Default: 1}, {Enum: 5, Name: "aa_zone", Default: 2}},
+		{{Enum: 5, Name: "zz_zone", Default: 3}, {Enum: 1, Name: "mm_d1", Default: 0}, {Enum: 4, Name: "aa_tier", Default: 1}},
+	} {
+		run(gcx.Input{Dims: regs, Doc: shared})
+	}
+	// mixed-case switch keys (the enums parse case-insensitively) and a document 40 levels deep
+	run(gcx.Input{Dims: d12, Doc: m("k", m("d1A", s("hit"), "default", s("no")), "l", m("D2A", s("hit2"), "d1b", s("x")))})
+	deep, deepDflt := m("D1a", s("bottom"), "default", s("no")), s("never")
+	for i := 0; i < 40; i++ {
+		switch i % 4 {
+		case 0:
+			deep = m("k", deep)
+		case 1:
+			deep = gcx.List(deep)
+		case 2:
+			deep = m("D2a", deep, "default", deepDflt)
+		default:
+			deep = m("a", deep, "b", s("sibling"))
+		}
+	}
+	run(gcx.Input{Dims: d12, Doc: m("deep", deep)})
 	// three dimensions, D3 registered first
 	d312 := []gcx.DimReg{{Enum: 3, Name: "d3", Default: 1}, {Enum: 1, Name: "d1", Default: 3}, {Enum: 2, Name: "d2", Default: 4}}
 	run(gcx.Input{Dims: d312,
